@@ -4,7 +4,11 @@
 (* invariants of L4Peers.  One line = one scenario; t.hist[k] is the state *)
 (* after the k-th load / unload: refs[a], pool[a] (identity of the pooled  *)
 (* peer, "" if none), holds[h][a] (identity of the peer handler h points   *)
-(* to), uses[h] (the dial addresses of live handler h, with repetitions).  *)
+(* to), uses[h] (the dial addresses of live handler h, with repetitions),  *)
+(* down[h][a] (live handler h reads "unhealthy" for its address a),        *)
+(* active (the live handlers that run an active health checker).  Steps    *)
+(* "wait" (the checkers get time for several rounds) and "up" / "dn" (the  *)
+(* backend starts / stops accepting) change no handler.                    *)
 (***************************************************************************)
 EXTENDS Integers, Sequences, FiniteSets, TLC, Json, TLCExt
 Traces == ndJsonDeserialize("peers_traces.ndjson")
@@ -17,9 +21,18 @@ Count(s, a) == Cardinality({ i \in DOMAIN s : s[i] = a })
 RECURSIVE SumUses(_, _, _)
 SumUses(e, S, a) == IF S = {} THEN 0 ELSE LET h == CHOOSE x \in S : TRUE IN Count(e.uses[h], a) + SumUses(e, S \ {h}, a)
 Y2(e) == \A a \in DOMAIN e.refs : e.refs[a] = SumUses(e, Live(e), a)
+\* Y3 (Watched): an "unhealthy" a live handler acts on is written by a live handler's active checker
+Y3(e) == \A h \in Live(e) : \A a \in Range(e.uses[h]) :
+           (a \in DOMAIN e.down[h] /\ e.down[h][a]) =>
+             \E g \in Live(e) : g \in Range(e.active) /\ a \in Range(e.uses[g]) /\ e.holds[g][a] = e.holds[h][a]
+\* Y4: after the checkers had time, a live handler WITH active checks reads the backend's real state
+Y4(e) == (e.op = "wait") => \A h \in Live(e) : h \in Range(e.active) =>
+            \A a \in Range(e.uses[h]) : (a \in DOMAIN e.down[h] /\ a \in DOMAIN e.up) => (e.down[h][a] = ~e.up[a])
 PeersViolations(t) ==
   (IF \A k \in DOMAIN t.hist : Y1(t.hist[k]) THEN {} ELSE {"Y1 a live handler's peer is not the pooled peer of its address (state no longer shared)"})
   \cup (IF \A k \in DOMAIN t.hist : Y2(t.hist[k]) THEN {} ELSE {"Y2 the reference count of an address differs from its uses by live handlers"})
+  \cup (IF \A k \in DOMAIN t.hist : Y3(t.hist[k]) THEN {} ELSE {"Y3 a live handler without active checks reads an 'unhealthy' verdict that no live checker can revise (left in the pooled peer by an unloaded handler)"})
+  \cup (IF \A k \in DOMAIN t.hist : Y4(t.hist[k]) THEN {} ELSE {"Y4 a handler with active checks does not read the backend's real state after several check intervals"})
 Judge(t) == LET v == PeersViolations(t) IN
             IF v = {} THEN TRUE ELSE PrintT(<<"VBAD", ToJson([id |-> t.id, clauses |-> v])>>)
 VARIABLE k
